@@ -83,3 +83,9 @@ Definition bind (m : M) (f : M) : M :=
    This is the trusted semantics of SQLite (and of the Cosmos service), stated here once. *)
 Definition txn (m : M) : M :=
   fun d => let (d1, ok) := m d in if ok then (d1, true) else (d, false).
+
+(* The same with one more fault position: the COMMIT itself may fail (the connection was interrupted because
+   the caller's context was cancelled, the disk is full, ...). sqlitex.Transaction then rolls back and reports
+   the error: the result is an error and the database is the one before. [txn] = [txn_f false]. *)
+Definition txn_f (commit_fails : bool) (m : M) : M :=
+  fun d => let (d1, ok) := m d in if ok && negb commit_fails then (d1, true) else (d, false).
